@@ -14,8 +14,14 @@ HANG / BUDGET is a failing input (lost wake-up).
 from specs import sched_env, n_cases
 
 
-def _env(rng, budget=300000):
+def _env(rng, budget=300000, fair=False):
     env = sched_env(rng, budget=budget)
+    while fair and env["VR_SCHED"] == "pct":
+        # strict-priority (PCT) schedules are unfair: a fiber that busy-waits through
+        # fiber_yield (bounded send on a full ring: "send will spin-loop") on a high-priority
+        # kernel thread starves the thread that runs the receiver for ever; that is an
+        # artefact of the schedule, not a lost wake-up, so such parts use fair schedules only
+        env = sched_env(rng, budget=budget)
     # the windows of interest (decided-to-sleep .. CAS .. context switch .. marker) are a
     # handful of scheduling points wide: switch often
     if env["VR_SCHED"] == "rand":
@@ -77,7 +83,7 @@ def gen_chan(kind):
                     ops.append("s%d" % v)
                     v += 1
                 fibers.append(",".join(_sprinkle(rng, ops)) or "y")
-            cases.append({"args": [k, kind, p2, "|".join(fibers)], "env": _env(rng)})
+            cases.append({"args": [k, kind, p2, "|".join(fibers)], "env": _env(rng, fair=(kind == "b"))})
         return cases
     return gen
 
